@@ -105,8 +105,9 @@ fn flatten_log(raw: &Value) -> Decoded {
 }
 
 /// one configuration: `p_eval` / `p_prog` are the periods of the two rules (0 = rule absent); `dup` adds a second rule for
-/// Evaluations (same name: the first rule wins); `missing` adds a rule whose source state does not exist (explicit null)
-fn logger_case(n: u32, p_eval: u32, p_prog: u32, dup: bool, missing: bool) {
+/// Evaluations (same name: the first rule wins); `missing` adds a rule whose source state does not exist (explicit null);
+/// `iter_rule` adds a rule logging the iteration counter itself every 2nd iteration
+fn logger_case(n: u32, p_eval: u32, p_prog: u32, dup: bool, missing: bool, iter_rule: bool) {
     let iterations = std::any::type_name::<Iterations>();
     let evaluations = std::any::type_name::<Evaluations>();
     let progress = std::any::type_name::<Progress<ValueOf<Iterations>>>();
@@ -117,6 +118,8 @@ fn logger_case(n: u32, p_eval: u32, p_prog: u32, dup: bool, missing: bool) {
     let state = config.optimize_with(&Dummy, |state| {
         state.insert(Evaluations(0));
         state.configure_log(|log| {
+            // a rule that logs the iteration counter itself (registered first): a fired trigger, even if nothing else fires
+            if iter_rule { log.with_auto::<Iterations>(EveryN::iterations(2)); }
             if p_eval > 0 { log.with_auto::<Evaluations>(EveryN::iterations(p_eval)); }
             if p_prog > 0 { log.with_auto::<Progress<ValueOf<Iterations>>>(EveryN::iterations(p_prog)); }
             if dup { log.with_auto::<Evaluations>(EveryN::iterations(1)); }
@@ -132,10 +135,10 @@ fn logger_case(n: u32, p_eval: u32, p_prog: u32, dup: bool, missing: bool) {
         if fires(p_eval) || dup { step.insert(evaluations.to_string(), json!(3 * (i + 1))); }
         if fires(p_prog) { step.insert(progress.to_string(), json!(f64::from(i) / f64::from(n))); }
         if missing && i % 2 == 0 { step.insert(absent.to_string(), Value::Null); }
-        if !step.is_empty() { step.insert(iterations.to_string(), json!(i)); expected.push(step); }
+        if !step.is_empty() || (iter_rule && i % 2 == 0) { step.insert(iterations.to_string(), json!(i)); expected.push(step); }
     }
     let fail = |why: &str, got: &Decoded| -> ! {
-        eprintln!("COUNTEREXAMPLE n={n} p_eval={p_eval} p_prog={p_prog} dup={dup} missing={missing}: {why}\n got      {got:?}\n expected {expected:?}");
+        eprintln!("COUNTEREXAMPLE n={n} p_eval={p_eval} p_prog={p_prog} dup={dup} missing={missing} iterations_rule={iter_rule}: {why}\n got      {got:?}\n expected {expected:?}");
         panic!("experiment record is not exact")
     };
     let raw = flatten_log(&serde_json::to_value(&*state.log()).unwrap());
@@ -144,7 +147,7 @@ fn logger_case(n: u32, p_eval: u32, p_prog: u32, dup: bool, missing: bool) {
     for step in serde_json::to_value(&*state.log()).unwrap().as_array().unwrap() {
         if step.as_array().unwrap()[0]["name"].as_str().unwrap() != iterations { fail("the iteration count is not the first entry of a step", &raw) }
     }
-    let path = std::env::temp_dir().join(format!("verif_c15_{}_{}.json", std::process::id(), n * 1000 + p_eval * 100 + p_prog * 10 + dup as u32 * 2 + missing as u32));
+    let path = std::env::temp_dir().join(format!("verif_c15_{}_{}.json", std::process::id(), n * 1000 + p_eval * 100 + p_prog * 10 + dup as u32 * 4 + missing as u32 * 2 + iter_rule as u32));
     state.log().to_json(&path).unwrap();
     let export: Value = serde_json::from_reader(std::fs::File::open(&path).unwrap()).unwrap();
     let _ = std::fs::remove_file(&path);
@@ -159,7 +162,7 @@ pub fn c15_native_logger_json_roundtrip() {
         for p_eval in 0..=3u32 {
             for p_prog in 0..=3u32 {
                 for dup in [false, true] {
-                    for missing in [false, true] { logger_case(n, p_eval, p_prog, dup, missing); cases += 1; }
+                    for missing in [false, true] { for iter_rule in [false, true] { logger_case(n, p_eval, p_prog, dup, missing, iter_rule); cases += 1; } }
                 }
             }
         }
